@@ -43,7 +43,12 @@ var errC12Dead = errors.New("c12: process is dead")
 
 type c12Node struct {
 	id   multiraft.NodeID
+	inc  atomic.Int64 // current process incarnation
 	dead atomic.Bool
+	// life is held (shared) by every call of a live process for the duration of its
+	// effect, and exclusively while a new incarnation takes over: no effect of the old
+	// process can land after the restart
+	life sync.RWMutex
 	// crash points: countdowns; when one reaches zero the node "dies" at that point
 	killBeforeSave  atomic.Int64
 	killAfterSave   atomic.Int64
@@ -84,76 +89,80 @@ func c12Hit(c *atomic.Int64) bool {
 
 type c12Store struct {
 	node  *c12Node
+	inc   int64
 	inner multiraft.Storage
 }
 
-func (s *c12Store) chk() error {
-	if s.node.dead.Load() {
-		return errC12Dead
+// c12Hang: a call made by a dead process never returns (returning an error instead
+// would let the old runtime go on; a failed Save even makes it panic in
+// rawNode.Ready: "two accepted Ready structs without call to Advance").
+func c12Hang() { select {} }
+
+func c12Alive(n *c12Node, inc int64) bool { return !n.dead.Load() && n.inc.Load() == inc }
+
+// c12Enter: begin a call of a live process (or never return)
+func c12Enter(n *c12Node, inc int64) {
+	n.life.RLock()
+	if !c12Alive(n, inc) {
+		n.life.RUnlock()
+		c12Hang()
 	}
-	return nil
 }
+
+func (s *c12Store) chk() error { return nil }
 func (s *c12Store) InitialState(ctx context.Context) (multiraft.BootstrapState, error) {
-	if err := s.chk(); err != nil {
-		return multiraft.BootstrapState{}, err
-	}
+	c12Enter(s.node, s.inc)
+	defer s.node.life.RUnlock()
 	return s.inner.InitialState(ctx)
 }
 func (s *c12Store) Entries(ctx context.Context, lo, hi, max uint64) ([]raftpb.Entry, error) {
-	if err := s.chk(); err != nil {
-		return nil, err
-	}
+	c12Enter(s.node, s.inc)
+	defer s.node.life.RUnlock()
 	return s.inner.Entries(ctx, lo, hi, max)
 }
 func (s *c12Store) Term(ctx context.Context, i uint64) (uint64, error) {
-	if err := s.chk(); err != nil {
-		return 0, err
-	}
+	c12Enter(s.node, s.inc)
+	defer s.node.life.RUnlock()
 	return s.inner.Term(ctx, i)
 }
 func (s *c12Store) FirstIndex(ctx context.Context) (uint64, error) {
-	if err := s.chk(); err != nil {
-		return 0, err
-	}
+	c12Enter(s.node, s.inc)
+	defer s.node.life.RUnlock()
 	return s.inner.FirstIndex(ctx)
 }
 func (s *c12Store) LastIndex(ctx context.Context) (uint64, error) {
-	if err := s.chk(); err != nil {
-		return 0, err
-	}
+	c12Enter(s.node, s.inc)
+	defer s.node.life.RUnlock()
 	return s.inner.LastIndex(ctx)
 }
 func (s *c12Store) Snapshot(ctx context.Context) (raftpb.Snapshot, error) {
-	if err := s.chk(); err != nil {
-		return raftpb.Snapshot{}, err
-	}
+	c12Enter(s.node, s.inc)
+	defer s.node.life.RUnlock()
 	return s.inner.Snapshot(ctx)
 }
 func (s *c12Store) Save(ctx context.Context, st multiraft.PersistentState) error {
-	if err := s.chk(); err != nil {
-		return err
-	}
+	c12Enter(s.node, s.inc)
 	if c12Hit(&s.node.killBeforeSave) {
 		s.node.die()
-		return errC12Dead
+		s.node.life.RUnlock()
+		c12Hang()
 	}
 	err := s.inner.Save(ctx, st)
+	s.node.life.RUnlock()
 	if c12Hit(&s.node.killAfterSave) {
 		s.node.die() // durable, but the process never gets to send/apply
-		return errC12Dead
+		c12Hang()
 	}
 	return err
 }
 func (s *c12Store) MarkApplied(ctx context.Context, i uint64) error {
-	if err := s.chk(); err != nil {
-		return err
-	}
+	c12Enter(s.node, s.inc)
+	defer s.node.life.RUnlock()
 	return s.inner.MarkApplied(ctx, i)
 }
 func (s *c12Store) MarkConfigApplied(ctx context.Context, i uint64) error {
-	if err := s.chk(); err != nil {
-		return err
-	}
+	c12Enter(s.node, s.inc)
+	defer s.node.life.RUnlock()
 	if c, ok := s.inner.(multiraft.ConfigAppliedIndexStorage); ok {
 		return c.MarkConfigApplied(ctx, i)
 	}
@@ -173,15 +182,23 @@ func (t *c12Trace) add(s string) {
 	t.mu.Unlock()
 }
 
-type c12SM struct {
-	node  *c12Node
-	key   string // "<node>.<slot>"
-	trace *c12Trace
-	mu    sync.Mutex
-	// durable state, changed atomically
+// c12Core is the durable state of one replica's state machine
+type c12Core struct {
+	mu      sync.Mutex
 	applied uint64
 	chain   uint64
 }
+
+// c12SM is one process incarnation's handle on it
+type c12SM struct {
+	node  *c12Node
+	inc   int64
+	key   string // "<node>.<slot>"
+	trace *c12Trace
+	*c12Core
+}
+
+func (m *c12SM) chk() { c12Enter(m.node, m.inc) }
 
 func c12ID(data []byte) uint64 {
 	if len(data) < 8 {
@@ -199,12 +216,11 @@ func (m *c12SM) Apply(ctx context.Context, cmd multiraft.Command) ([]byte, error
 }
 
 func (m *c12SM) ApplyBatch(ctx context.Context, cmds []multiraft.Command) ([][]byte, error) {
-	if m.node.dead.Load() {
-		return nil, errC12Dead
-	}
+	m.chk()
 	if c12Hit(&m.node.killBeforeApply) {
 		m.node.die()
-		return nil, errC12Dead
+		m.node.life.RUnlock()
+		c12Hang()
 	}
 	m.mu.Lock()
 	parts := make([]string, len(cmds))
@@ -222,26 +238,25 @@ func (m *c12SM) ApplyBatch(ctx context.Context, cmds []multiraft.Command) ([][]b
 	}
 	m.trace.add(fmt.Sprintf("T%s:A%s#%d", m.key, strings.Join(parts, ","), chain))
 	m.mu.Unlock()
+	m.node.life.RUnlock()
 	if c12Hit(&m.node.killAfterApply) {
 		m.node.die() // the effect is durable, MarkApplied / Advance / future completion never happen
-		return nil, errC12Dead
+		c12Hang()
 	}
 	return out, nil
 }
 
 func (m *c12SM) DurableAppliedIndex(ctx context.Context) (uint64, error) {
-	if m.node.dead.Load() {
-		return 0, errC12Dead
-	}
+	m.chk()
+	defer m.node.life.RUnlock()
 	m.mu.Lock()
 	defer m.mu.Unlock()
 	return m.applied, nil
 }
 
 func (m *c12SM) Snapshot(ctx context.Context) (multiraft.Snapshot, error) {
-	if m.node.dead.Load() {
-		return multiraft.Snapshot{}, errC12Dead
-	}
+	m.chk()
+	defer m.node.life.RUnlock()
 	m.mu.Lock()
 	defer m.mu.Unlock()
 	b := make([]byte, 16)
@@ -252,9 +267,8 @@ func (m *c12SM) Snapshot(ctx context.Context) (multiraft.Snapshot, error) {
 }
 
 func (m *c12SM) Restore(ctx context.Context, snap multiraft.Snapshot) error {
-	if m.node.dead.Load() {
-		return errC12Dead
-	}
+	m.chk()
+	defer m.node.life.RUnlock()
 	if len(snap.Data) != 16 {
 		return errors.New("c12: bad snapshot")
 	}
@@ -284,10 +298,15 @@ type c12Net struct {
 type c12Transport struct {
 	net  *c12Net
 	from multiraft.NodeID
+	node *c12Node
+	inc  int64
 }
 
 func (t *c12Transport) Send(ctx context.Context, batch []multiraft.Envelope) error {
 	n := t.net
+	if !c12Alive(t.node, t.inc) {
+		return nil // a dead process sends nothing
+	}
 	for _, env := range batch {
 		n.mu.Lock()
 		if n.closed {
@@ -338,8 +357,8 @@ func (t *c12Transport) Send(ctx context.Context, batch []multiraft.Envelope) err
 type c12Cluster struct {
 	net    *c12Net
 	nodes  map[multiraft.NodeID]*c12Node
-	stores map[string]*c12Store
-	sms    map[string]*c12SM
+	inner  map[string]multiraft.Storage
+	cores  map[string]*c12Core
 	trace  *c12Trace
 	tick   time.Duration
 }
@@ -354,7 +373,7 @@ func (c *c12Cluster) newRuntime(id multiraft.NodeID) *multiraft.Runtime {
 		NodeID:       id,
 		TickInterval: c.tick,
 		Workers:      2,
-		Transport:    &c12Transport{net: c.net, from: id},
+		Transport:    &c12Transport{net: c.net, from: id, node: c.nodes[id], inc: c.nodes[id].inc.Load()},
 		Raft: multiraft.RaftOptions{
 			ElectionTick:  10,
 			HeartbeatTick: 1,
@@ -371,7 +390,11 @@ func (c *c12Cluster) newRuntime(id multiraft.NodeID) *multiraft.Runtime {
 
 func (c *c12Cluster) slotOptions(id multiraft.NodeID, s multiraft.SlotID) multiraft.SlotOptions {
 	k := c12Key(id, s)
-	return multiraft.SlotOptions{ID: s, Storage: c.stores[k], StateMachine: c.sms[k]}
+	n := c.nodes[id]
+	inc := n.inc.Load()
+	return multiraft.SlotOptions{ID: s,
+		Storage:      &c12Store{node: n, inc: inc, inner: c.inner[k]},
+		StateMachine: &c12SM{node: n, inc: inc, key: k, trace: c.trace, c12Core: c.cores[k]}}
 }
 
 func (c *c12Cluster) leader(s multiraft.SlotID) (multiraft.NodeID, *multiraft.Runtime) {
@@ -399,24 +422,18 @@ func (c *c12Cluster) restart(id multiraft.NodeID) {
 	node := c.nodes[id]
 	node.die()
 	c.net.mu.Lock()
-	old := c.net.rts[id]
 	delete(c.net.rts, id)
 	c.net.mu.Unlock()
-	if old != nil {
-		done := make(chan struct{})
-		go func() { _ = old.Close(); close(done) }()
-		select {
-		case <-done:
-		case <-time.After(10 * time.Second):
-			// a wedged Close is not this property's business; leave the zombie, it can do nothing (dead flag)
-		}
-	}
-	// new incarnation
+	// the old runtime is abandoned, not closed: it is a dead process; whatever it still
+	// tries to do hangs in its first storage / state machine call and it sends nothing
+	node.life.Lock()
 	for _, s := range c12Slots {
 		c.trace.add(fmt.Sprintf("T%s:X", c12Key(id, s)))
 	}
 	node.armReset()
+	node.inc.Add(1)
 	node.dead.Store(false)
+	node.life.Unlock()
 	rt := c.newRuntime(id)
 	for _, s := range c12Slots {
 		if err := rt.OpenSlot(context.Background(), c.slotOptions(id, s)); err != nil {
@@ -434,8 +451,8 @@ func c12Run(seed uint64, proposals int, profile string) string {
 		net: &c12Net{rng: NewRand(seed ^ 0x5bd1e995), blocked: map[[2]multiraft.NodeID]bool{}, rts: map[multiraft.NodeID]*multiraft.Runtime{},
 			maxMS: 3},
 		nodes:  map[multiraft.NodeID]*c12Node{},
-		stores: map[string]*c12Store{},
-		sms:    map[string]*c12SM{},
+		inner:  map[string]multiraft.Storage{},
+		cores:  map[string]*c12Core{},
 		trace:  &c12Trace{},
 		tick:   4 * time.Millisecond,
 	}
@@ -453,8 +470,8 @@ func c12Run(seed uint64, proposals int, profile string) string {
 		c.nodes[id] = n
 		for _, s := range c12Slots {
 			k := c12Key(id, s)
-			c.stores[k] = &c12Store{node: n, inner: raftlog.NewMemory()}
-			c.sms[k] = &c12SM{node: n, key: k, trace: c.trace}
+			c.inner[k] = raftlog.NewMemory()
+			c.cores[k] = &c12Core{}
 		}
 	}
 	for _, id := range c12NodeIDs {
@@ -558,7 +575,10 @@ func c12Run(seed uint64, proposals int, profile string) string {
 		for _, s := range c12Slots {
 			var ref uint64
 			for i, id := range c12NodeIDs {
-				a, _ := c.sms[c12Key(id, s)].DurableAppliedIndex(context.Background())
+				core := c.cores[c12Key(id, s)]
+				core.mu.Lock()
+				a := core.applied
+				core.mu.Unlock()
 				if i == 0 {
 					ref = a
 				} else if a != ref {
